@@ -969,6 +969,7 @@ fn find_again(
         &PrintOpts {
             noise_seed: None,
             main_is_module_body: false,
+                define_globals: true,
         },
     );
     // try the hinted plan first (cheap), then the full enumeration
@@ -1010,7 +1011,7 @@ pub fn shrink(
     let mut best = p.clone();
     let Some((mut best_printed, mut best_finding)) = find_again(&best, &class, seed, clock, &finding.plan) else {
         // cannot even reproduce without layout noise: keep the original
-        let printed = simlang::print(p, &PrintOpts { noise_seed: None, main_is_module_body: false });
+        let printed = simlang::print(p, &PrintOpts { noise_seed: None, main_is_module_body: false, define_globals: true });
         return (
             p.clone(),
             printed,
@@ -1159,6 +1160,7 @@ impl Worker for UnwindWorker {
             &PrintOpts {
                 noise_seed: noise,
                 main_is_module_body: false,
+                define_globals: true,
             },
         );
         let ev = evaluate_program(&p, &printed, run_seed, &self.clock, false);
@@ -1350,7 +1352,7 @@ pub fn show(run_seed: u64, fault: Option<&str>) {
     let knobs = GenKnobs::swarm(&mut kr);
     let p = simlang::generate(&mut sr, &knobs);
     let noise = if kr.chance(1, 2) { Some(mix(run_seed, 77)) } else { None };
-    let printed = simlang::print(&p, &PrintOpts { noise_seed: noise, main_is_module_body: false });
+    let printed = simlang::print(&p, &PrintOpts { noise_seed: noise, main_is_module_body: false, define_globals: true });
     let mut plan = FaultPlan::new();
     if let Some(f) = fault {
         for part in f.split(',') {
